@@ -47,7 +47,8 @@ func checkC16(run *Run, res *Result) {
 		n    int
 		high map[int]uint64
 	}
-	calls := map[int]*scrapeCall{} // member -> scrape in progress
+	calls := map[int]*scrapeCall{}
+	inHook := map[int]bool{} // member -> scrape in progress
 	open := map[int]bool{}
 	closing := map[int]bool{}
 	assigned := map[int]map[int]bool{}
@@ -88,6 +89,7 @@ func checkC16(run *Run, res *Result) {
 		case journal.KCall:
 			if e.S == "scrape" {
 				calls[e.M] = &scrapeCall{n: e.N, high: map[int]uint64{}}
+				inHook[e.M] = strings.HasPrefix(e.S2, "inside ")
 			}
 			if e.S == "Close" {
 				closing[e.M] = true
@@ -159,6 +161,12 @@ func checkC16(run *Run, res *Result) {
 			c := calls[e.M]
 			delete(calls, e.M)
 			if c == nil {
+				continue
+			}
+			if inHook[e.M] {
+				// a scrape from inside a lifecycle callback sees the stream between two states: it must neither
+				// block nor crash (R5); its values are not compared
+				res.probe("scrape-inside-callback")
 				continue
 			}
 			res.probe("scrape-judged")
@@ -258,6 +266,23 @@ func checkC16(run *Run, res *Result) {
 	if run.Ended {
 		for m, c := range calls {
 			res.violate("C16", "R5-scrape-blocked", c.n, "plain", "member %d: the scrape begun at event #%d never returned", m, c.n)
+		}
+	}
+	// R5: a scrape never crashes the process, whatever state the stream is in
+	if res.DeathKind == "runtime-panic" || res.DeathKind == "library-failstop" {
+		openScrape := map[string]*journal.Ev{}
+		for i := range run.Evs {
+			e := &run.Evs[i]
+			if e.K == journal.KCall && e.S == "scrape" {
+				openScrape[e.ID] = e
+			}
+			if e.K == journal.KRet && e.S == "scrape" {
+				delete(openScrape, e.ID)
+			}
+		}
+		for _, e := range openScrape {
+			res.violate("C16", "R5-scrape-crashed", len(run.Evs), "plain", "member %d: the process died while a scrape (%s, event #%d) was in progress: %s", e.M, e.S2, e.N, res.FailStop)
+			break
 		}
 	}
 }
